@@ -212,8 +212,8 @@ func c09(r *core.Run) {
 
 func c19(r *core.Run) {
 	p := r.P
-	r.Explain = "C19 decided structurally: (THRESH) a rename candidate is created only under similarity >= threshold, with the similarity being the structural similarity of the two topologies; (ONE2ONE) rename pairings are one-to-one (shared with C09.PART); (STATUS) the status 'renamed' and the 'old → new' label are stored exactly on the not-matched-by-name edge; (NAMEFREE) the inputs of the similarity contain no name of the subject function (see C05.NAMEFREE, run here on the similarity's inputs); (TIE) candidate order is deterministic (see C10). (CAND) the candidate search is exhaustive: neither loop around the candidate append is left early; (SYM) TopologySimilarity(a,b) = TopologySimilarity(b,a) is proved by structural induction over the SSA value graph (mirrored fields, commutative operators, min/max selectors, |x| of a mirrored difference, recursively proved helpers), with the symmetry of MapSimilarity as a listed assumption; (RANGE) the similarity is score/weights where interval evaluation of the SSA value graph bounds score between 0 and the constant sum of the weights (each term lies between 0 and its weight; |x-y|/max(x,y) ∈ [0,1] for non-negative counts; the helper similarities are assumed to lie in [0,1]). Not decided (numeric, out of reach of a sound static argument here): symmetry of MapSimilarity itself, range [0,1] of the similarity, the value 1 for a renamed copy, whether the greedy matcher pairs the right functions."
-	r.Undecided = []string{"symmetry of MapSimilarity (assumed by C19.SYM: rests on max(c,0)=c for non-negative counts)", "range [0,1] of MapSimilarity and typeListSimilarity themselves (assumed by C19.RANGE, which decides that the weights agree and every other term is bounded)", "similarity exactly 1 for a renamed copy (only the name-freedom of its inputs is decided)", "optimality of greedy pairing"}
+	r.Explain = "C19 decided structurally: (THRESH) a rename candidate is created only under similarity >= threshold, with the similarity being the structural similarity of the two topologies; (ONE2ONE) rename pairings are one-to-one (shared with C09.PART); (STATUS) the status 'renamed' and the 'old → new' label are stored exactly on the not-matched-by-name edge; (NAMEFREE) the inputs of the similarity contain no name of the subject function (see C05.NAMEFREE, run here on the similarity's inputs); (TIE) candidate order is deterministic (see C10). (CAND) the candidate search is exhaustive: neither loop around the candidate append is left early; (SYM) TopologySimilarity(a,b) = TopologySimilarity(b,a) is proved by structural induction over the SSA value graph (mirrored fields, commutative operators, min/max selectors, |x| of a mirrored difference, recursively proved helpers), with MapSimilarity proved separately as a two-pass sum over the union of keys: the per-key terms are symmetric in the two counts, the second pass adds for a key only the second map has exactly what the first pass adds for a key only the first map has (e(c,0), simplified with min(c,0)=0 and max(c,0)=c for non-negative counts), and the result is a symmetric function of the sums; (RANGE) the similarity is score/weights where interval evaluation of the SSA value graph bounds score between 0 and the constant sum of the weights (each term lies between 0 and its weight; |x-y|/max(x,y) ∈ [0,1] for non-negative counts; the helper similarities are assumed to lie in [0,1]). Not decided (numeric, out of reach of a sound static argument here): range [0,1] of the similarity, the value 1 for a renamed copy, whether the greedy matcher pairs the right functions."
+	r.Undecided = []string{"that frequency counts are non-negative (assumed by C19.SYM)", "range [0,1] of MapSimilarity and typeListSimilarity themselves (assumed by C19.RANGE, which decides that the weights agree and every other term is bounded)", "similarity exactly 1 for a renamed copy (only the name-freedom of its inputs is decided)", "optimality of greedy pairing"}
 	matcherParts(r, "C19.ONE2ONE", "C19.THRESH")
 	c19Sym(r)
 	c19Range(r)
